@@ -4,6 +4,7 @@
 // that room is this loop: a row is put in an answer only if it is stored in the requested room.
 #![allow(unused_imports, unused_variables, dead_code, unused_mut, non_snake_case)]
 use vstd::prelude::*;
+use std::collections::{HashMap, HashSet, VecDeque};   // the std collections a change to the extracted code may reach for
 use vstd::std_specs::cmp::PartialEqSpec;
 verus! {
 broadcast use vstd::laws_eq::group_laws_eq;
